@@ -173,7 +173,7 @@ def run(ctx):
                    predicate=pred_strict, nontrivial=nt)
     gen_strict_chain(ctx, hb, ctx.rng.fork("gen"), ctx.tier)
     # strict-parser TOGETHER with the table codecs (quarter decode table, min encode table, no hex-simd)
-    for cfg2 in ("strict-decq", "strict-decmin", "strict-nosimd"):
+    for cfg2 in ("strict-decq", "strict-decmin", "strict-nosimd", "strict-unsafe"):
         hb2 = ctx.harness(cfg2)
         if hb2 is None:
             continue
